@@ -5,7 +5,7 @@ import re
 
 from ..core.absint import Interp, alternatives, pretty
 from ..core.analysis import Analysis, facts
-from ..core.astutil import handler_catches
+from ..core.astutil import deref, handler_catches
 from ..core.forms import NotPolynomial, Poly, Rat, canon, expand, srcinfo, to_rat
 from ..core.pyrepo import Repo, calls_in, dotted, norm_stmt
 from ..core.report import AnalysisError
@@ -241,7 +241,8 @@ def run(ctx):
             strip = None
             if isinstance(st, ast.Assign) and isinstance(st.value, ast.Subscript) \
                     and isinstance(st.value.slice, ast.Slice) \
-                    and norm_stmt(st.value.slice).replace(" ", "") in (":-10", ":-len('(deleted)')"):
+                    and norm_stmt(deref(fi.node, st.value.slice)).replace(" ", "") in (
+                        ":-10", ":-len('(deleted)')"):
                 strip = st
             elif isinstance(st, ast.Assign) and isinstance(st.value, ast.Call) \
                     and isinstance(st.value.func, ast.Attribute) \
@@ -257,7 +258,7 @@ def run(ctx):
             for n in fcfg.nodes_of(strip):
                 for e, pol, _ in fcfg.guards(n):
                     for atom, val in decompose_guard(e, pol):
-                        txt = norm_stmt(atom)
+                        txt = norm_stmt(deref(fi.node, atom))
                         if "endswith" in txt and "' (deleted)'" in txt and val:
                             ends = True
                         if isinstance(atom, ast.Call) and (dotted(atom.func) or "").split(".")[-1] in (
